@@ -178,7 +178,13 @@ def harness(env, case):
         env.fail("group design cannot be built", {"exc": type(e).__name__, "site": core.repo_site(e)})
         return
     for name, term in dm.group.terms.items():
-        Z = np.asarray(dm.group[name])
+        try:
+            Z = np.asarray(dm.group[name])
+        except symx.PathEnd:
+            raise
+        except Exception as e:
+            env.fail("the block of a group-specific term cannot be read by the term's name", {"term": name, "exc": type(e).__name__, "site": core.repo_site(e)})
+            continue
         fvars = []
         for comp in term.factor.components:
             m = re.match(r"^[CTS]\((\w+)", comp.name)
